@@ -107,6 +107,13 @@ func c11(r *Report) {
 	r.Guard("C11.R1", "every encoding is decoded and re-encoded by inverse codecs of the same wire format; all switches cover all encodings", func() {
 		// a message that cannot be decoded or re-encoded is an error of the stream, not a
 		// message passed on undecoded
+		// the decoders read a message body to its end, whatever it consists of: no reader is put
+		// into a mode that stops early
+		for _, f := range w.Funcs("h2/grpc") {
+			for _, c := range calls(f, "(*compress/gzip.Reader).Multistream") {
+				r.Fail("callgraph", fnName(f)+": gzip reader switched out of multistream mode", "a gzip-compressed message whose body consists of several gzip members is cut after the first member: the processor is shown a truncated message", nil, c.Pos())
+			}
+		}
 		for _, n := range []string{"adapter.Data", "adapter.Header", "emitter.Message", "gunzip", "deflate"} {
 			errorsReturnedRule(r, r.W.Fn("h2/grpc", n), false)
 		}
@@ -509,7 +516,7 @@ func c11(r *Report) {
 		// cut by a DATA frame boundary stays buffered until the rest arrives.
 		isBuf := func(v ssa.Value) bool {
 			fa, ok := unwrapIface(v).(*ssa.FieldAddr)
-			return ok && fieldObj(fa).Name() == "buffer" && fa.X == ssa.Value(ad.Params[0])
+			return ok && fieldObj(fa).Name() == "buffer" && isParamVal(fa.X, ad.Params[0])
 		}
 		consuming := map[string]bool{"Next": true, "Read": true, "ReadByte": true, "ReadRune": true, "ReadBytes": true, "ReadString": true, "WriteTo": true, "Truncate": true, "Reset": true}
 		nCons := 0
